@@ -2,6 +2,8 @@
 
 package go_clipper2
 
+import "sync"
+
 // Verification hooks (build tag "verif"): exported aliases of unexported
 // routines so that the external harness in /verif can compare them with the
 // Coq models.  Add-only; nothing here is compiled without the tag.
@@ -51,4 +53,33 @@ func (c *clipper64) VerifSetOptions(preserveCollinear, reverseSolution bool) {
 func (c *clipperD) VerifSetOptions(preserveCollinear, reverseSolution bool) {
 	c.preserveCollinear = preserveCollinear
 	c.reverseSolution = reverseSolution
+}
+
+// ---- event recorder (verif builds only) ----
+
+// VerifSplitDiscard describes one self-intersection lobe that doSplitOp
+// dropped from an output ring instead of keeping it as a ring of its own.
+type VerifSplitDiscardEvent struct {
+	Ip, A, B     Point64
+	Area1, Area2 float64
+}
+
+var (
+	verifMu     sync.Mutex
+	verifSplits []VerifSplitDiscardEvent
+)
+
+func verifSplitDiscard(ip, a, b Point64, area1, area2 float64) {
+	verifMu.Lock()
+	verifSplits = append(verifSplits, VerifSplitDiscardEvent{ip, a, b, area1, area2})
+	verifMu.Unlock()
+}
+
+// VerifTakeSplitDiscards returns and clears the recorded events.
+func VerifTakeSplitDiscards() []VerifSplitDiscardEvent {
+	verifMu.Lock()
+	defer verifMu.Unlock()
+	out := verifSplits
+	verifSplits = nil
+	return out
 }
